@@ -167,7 +167,28 @@ def m_input_has_nested_add(case, v):
     return "substituting the replacements back" in v.msg and _nested_add(v.detail.get("input"))
 
 
+def m_power_of_replaced_power(case, v):
+    """KF-C37-03: b**n is rewritten as (b**m)**(n/m) through a replacement x_k = b**m; substituting back gives the
+    unfolded power (b**m)**(n/m), which is not eq to b**n (and differs from it off the positive real axis)"""
+    if "substituting the replacements back" not in v.msg:
+        return False
+    names = {a[1] for a, b in v.detail.get("repl", []) if b[:1] == ["Pow"]}
+
+    def hit(d):
+        if isinstance(d, list):
+            if d[:1] == ["Pow"] and d[1][:1] == ["Symbol"] and d[1][1] in names and d[2][:1] == ["Rational"]:
+                return True
+            if d[:1] == ["Mul"]:
+                for b, e in d[2]:
+                    if b[:1] == ["Symbol"] and b[1] in names and e[:1] == ["Rational"]:
+                        return True
+            return any(hit(x) for x in d)
+        return False
+    return hit(v.detail.get("reduced"))
+
+
 C37.matchers = {"user_function_named_like_marker": m_user_function_named_like_marker,
+                "power_of_replaced_power": m_power_of_replaced_power,
                 "input_has_nested_add": m_input_has_nested_add}
 
 
